@@ -4,20 +4,8 @@
    class (all lengths, all code points of the class), the designated pattern applied to the
    rendering R(K,d,v) yields R(K,d,mask). *)
 Require Import OV.Base.Bytes OV.Base.PyInt OV.Base.Str OV.Base.Regex OV.Base.C04_Tmpl.
-Require Import OV.Gen.Unicode OV.Gen.C04_Sanitize OV.Model.C04 OV.Proofs.C04_Regex OV.Proofs.C04.
+Require Import OV.Gen.Unicode OV.Gen.C04_Sanitize OV.Model.C04 OV.Model.C04_Spec OV.Proofs.C04_Regex OV.Proofs.C04.
 Open Scope N_scope.
-
-(* ---------- the value classes, written from the property text ---------- *)
-Definition valid_cp (c : N) : bool := c <=? 1114111.
-Definition is_quote (c : N) : bool := (c =? 34) || (c =? 39).
-(* printable-or-not is irrelevant to the patterns: every code point that is not white space / quote *)
-Definition bare_char (c : N) : bool := valid_cp c && negb (is_space c) && negb (is_quote c).
-Definition quoted_char (c : N) : bool := valid_cp c && negb (is_quote c).          (* spaces allowed *)
-Definition dq_char (c : N) : bool := valid_cp c && negb (c =? 34).                  (* k = "v": v may hold ' *)
-Definition sq_char (c : N) : bool := valid_cp c && negb (c =? 39).
-Definition dd_char (c : N) : bool := bare_char c && negb (c =? 61).                 (* --k v *)
-Definition xml_char (c : N) : bool := valid_cp c && negb (c =? 60).                 (* <k>v</k> *)
-Definition nonspace_char (c : N) : bool := valid_cp c && negb (is_space c).         (* k --flag v *)
 
 (* the sets the generated templates use for the value, read off the templates *)
 Definition rep_cs (r : re) : cset := match r with Rep cs _ _ => cs | _ => [] end.
@@ -96,8 +84,6 @@ Lemma ci_table_ok :
   forallb (fun c => cmem c (ci_lookup gen_ci_table c) && cmem (upper_ascii1 c) (ci_lookup gen_ci_table c)) key_alphabet = true.
 Proof. vm_compute. reflexivity. Qed.
 
-(* K is k with every letter independently in lower or upper case *)
-Definition casing_of (k K : str) : Prop := Forall2 (fun c C => C = c \/ C = upper_ascii1 c) k K.
 
 Lemma casing_ok_of k K : forallb key_char k = true -> casing_of k K -> casing_ok gen_ci_table k K.
 Proof.
